@@ -1,7 +1,72 @@
 import PhyVerif.Driver.Json
+import PhyVerif.Driver.Rat
 import PhyVerif.Model.C13
+import PhyVerif.Model.C13c
 namespace PhyVerif.Driver
 open Lean PhyVerif.C13
+
+def nameOfStr (s : String) : PhyVerif.C13.Name := s.splitOn "."
+def strOfName (n : PhyVerif.C13.Name) : String := ".".intercalate n
+
+/-- a directory listing entry `{name, tag, rows, vec2d?, vals?}`: `vals` (integers) gives the rows of a 1-D
+integer file, otherwise the rows are tokens -/
+def asEntry (j : Json) : R (PhyVerif.C13.Name × Entry) := do
+  let name ← getStr j "name"
+  let tag ← getStr j "tag"
+  let vec2d ← if hasFld j "vec2d" then getBool j "vec2d" else pure false
+  let rows ← if hasFld j "vals" then (do let v ← getInts j "vals"; pure (v.map Row.z))
+             else if hasFld j "rows" then (do let n ← getNat j "rows"; pure (tokRows name n))
+             else pure []
+  pure (nameOfStr name, ⟨tag, rows, vec2d⟩)
+
+def getDir (j : Json) (k : String) : R FDir :=
+  if hasFld j k then fld j k >>= asList asEntry else pure []
+
+def jRow : Row → Json
+  | .q v => jRat v
+  | .z v => jInt v
+  | .s v => Json.str v
+  | .tok w i => Json.arr #[Json.str w, jNat i]
+
+/-- values of a file whose rows are all integers (ids, samples) -/
+def intVals (e : Entry) : Option (List Int) :=
+  if e.rows.isEmpty then none else e.rows.mapM fun r => match r with | .z v => some v | _ => none
+
+def jOutEntry (f : PhyVerif.C13.Name × Entry) : Json :=
+  Json.mkObj [("name", Json.str (strOfName f.1)), ("tag", Json.str f.2.tag), ("dim", jNat (firstDim f.1 f.2)),
+              ("vals", jOpt jInts (intVals f.2))]
+
+def getView (j : Json) : R View := do
+  let rate ← fld j "rate" >>= asRat
+  let namp ← getNat j "n_amplitudes"
+  -- the source's spike file: `samples` = spike_times.npy (in samples); `times_sec` = spikes.times*.npy (seconds),
+  -- optionally with `samples_file` = spikes.samples*.npy
+  let file ← if hasFld j "times_sec" then (do
+      let t ← getRats j "times_sec"
+      let s ← if hasFld j "samples_file" then some <$> getInts j "samples_file" else pure none
+      pure (SpikeFile.inSeconds t s))
+    else SpikeFile.inSamples <$> getInts j "samples"
+  let st := loadSpikeSamples rate file
+  pure { rate := rate, samples := st.1, times := st.2, spikeClusters := ← getNats j "sc",
+         spikeTemplates := ← getNats j "st", amplitudes := List.replicate namp 0,
+         nTemplates := ← getNat j "n_templates", channelMap := ← getNats j "channel_map",
+         channelProbes := ← getNats j "channel_probes", features := ← getBool j "features" }
+
+def jErr : Option Err → Json
+  | none => Json.null
+  | some .sameDir => Json.str "sameDir"
+  | some .noClusterChannels => Json.str "noClusterChannels"
+  | some .noSpikesFile => Json.str "noSpikesFile"
+  | some .badLabel => Json.str "badLabel"
+
+/-- `RowsOK` as a Bool, evaluated on the model's own output (a self-check of the machinery) -/
+def rowsOKb (v : View) (d : FDir) : Bool :=
+  d.all fun f => !isObj f.1 || expectedRows (sizesOf v) f.1 == some (firstDim f.1 f.2)
+
+/-- what a stale older export looks like when it is re-exported over (harness/alf_common.py: every object
+`.npy` table is replaced by a 3-row array) -/
+def staleOut (d : FDir) : FDir :=
+  d.map fun f => if isObj f.1 && f.1.getLast? == some "npy" then (f.1, ⟨"stale", tokRows "stale" 3, false⟩) else f
 
 def runC13 (op : String) (j : Json) : R Json := do
   match op with
@@ -14,6 +79,46 @@ def runC13 (op : String) (j : Json) : R Json := do
     | some files =>
       pure (Json.mkObj [("model", jList (fun (f : PhyVerif.C13.Name × Nat) =>
         Json.arr #[Json.str (".".intercalate f.1), jNat f.2]) files)])
+  | "export" =>
+    -- the whole conversion on directories: source view + source listing -> both directories afterwards
+    let v ← getView j
+    let cfg : Cfg := { sameDir := ← getBool j "same_dir", force := ← getBool j "force",
+                       label := ← getStr j "label", hasTraces := ← getBool j "has_traces" }
+    let src ← getDir j "src"
+    let out0 ← getDir j "out0"
+    let gen := fun (k : Nat) => s!"uuid-{k}"
+    let reexport ← if hasFld j "reexport" then getBool j "reexport" else pure false
+    let o :=
+      if reexport then
+        let o1 := convertFS { cfg with force := false } v gen ⟨src, out0⟩
+        convertFS { cfg with force := true } v (fun k => s!"uuid2-{k}") ⟨o1.fs.src, staleOut o1.fs.out⟩
+      else convertFS cfg v gen ⟨src, out0⟩
+    let s := sizesOf v
+    -- the table of Model/C13.lean, with the counts computed here from the source view
+    let table := match convert "src" (if cfg.sameDir then "src" else "out") cfg.label s with
+      | none => Json.null
+      | some files => jList (fun (f : PhyVerif.C13.Name × Nat) => Json.arr #[Json.str (strOfName f.1), jNat f.2]) files
+    pure (Json.mkObj [
+      ("err", jErr o.err),
+      ("counts", Json.mkObj [("spikes", jNat s.nSpikes), ("clusters", jNat s.nClusters),
+                             ("templates", jNat s.nTemplates), ("channels", jNat s.nChannels)]),
+      ("src", jList (fun (f : PhyVerif.C13.Name × Entry) => Json.arr #[Json.str (strOfName f.1), Json.str f.2.tag]) o.fs.src),
+      ("out", jList jOutEntry o.fs.out),
+      ("times", jRats v.times), ("samples", jInts v.samples),
+      ("table", table),
+      ("rows_ok", Json.bool (rowsOKb v o.fs.out)),
+      ("frame_ok", Json.bool (frameOKb src o.fs.src))])
+  | "frame" =>
+    -- the frame clause decided on two REAL listings of the source directory
+    let before ← getDir j "before"
+    let after ← getDir j "after"
+    pure (Json.mkObj [("frame_ok", Json.bool (frameOKb before after))])
+  | "uuids" =>
+    -- "one unique identifier per cluster" decided on the lines of the REAL file; the number of clusters is
+    -- computed from the source view
+    let v ← getView j
+    let lines ← fld j "impl_lines" >>= asList asStr
+    pure (Json.mkObj [("uuid_ok", Json.bool (uuidOKb (nClusters v) lines)), ("n_clusters", jNat (nClusters v))])
   | _ => .error s!"C13: unknown op {op}"
 
 end PhyVerif.Driver
